@@ -7,6 +7,16 @@ PROP = "C01"
 LEAN_MODULE = "VK.Props.C01"
 THEOREMS = [
     "VK.C01_topM_two_states",
+    "VK.stvStep_inv",
+    "VK.stvLoop_inv",
+    "VK.C01_stv_exactly_m_and_partition",
+    "VK.Good_suffix",
+    "VK.C01_stv_round_lists_disjoint",
+    "VK.C01_irv_one_winner",
+    "VK.C01_topM_count_partition",
+    "VK.C01_topM_no_tiebreak_no_boundary_tie",
+    "VK.C01_plurality",
+    "VK.C01_borda",
 ]
 RULE = ("cases = rule (18 classes) x random valid profile (1-6 candidates incl. zero-vote ones, 0-10 ballots, partial "
         "ballots, tied positions where the rule allows them, unit/int/rational weights; score ballots within limits for "
